@@ -38,6 +38,7 @@ def untraced(fn):
                 return fn(*a, **k)
         return fn(*a, **k)
     wrapper.__name__ = getattr(fn, "__name__", "untraced")
+    wrapper.__wrapped__ = fn
     return wrapper
 
 
